@@ -133,7 +133,7 @@ Proof.
   destruct R as [->|R].
   - (* the loop never recorded an oldest slot: the index is the table size, reading and writing there do nothing *)
     unfold znth. rewrite !nth_overflow by (rewrite ?map_length; lia). reflexivity.
-  - symmetry. apply znth_map. lia.
+  - apply znth_map. lia.
 Qed.
 Print Assumptions slot_age_shift.
 
